@@ -107,3 +107,37 @@ Example C07_example_multi_limit :
                       1700000005000000000 1 in
   mwf mi = true /\ mo_code (mmodel mi) = 11%N /\ mo_fetched (mmodel mi) = [0%N].
 Proof. exact example_multi_limit. Qed.
+
+(* ---------- one signature (OCI or blob), verified at a given time ---------- *)
+
+(* the clock is an input: BEFORE the expiry written into the envelope (signing
+   time in seconds + requested duration; never, for duration 0) the timed model
+   is the model of C07_Property — all its theorems hold at any such time *)
+Theorem C07_before_expiry : forall vnow i,
+  wf i = true -> input_expired vnow i = false -> model_at vnow i = model i.
+Proof. exact model_at_before. Qed.
+Print Assumptions C07_before_expiry.
+
+(* ... and FROM the expiry on the signature is still produced but does not
+   verify; nothing is returned; the refusal is "expired" unless the request is
+   refused earlier (signer not trusted, invalid content media type) *)
+Theorem C07_after_expiry : forall vnow i,
+  wf i = true -> input_expired vnow i = true ->
+  let o := model_at vnow i in
+  o_sign o = 0%N /\ o_verify o <> 0%N /\ o_ret o = None /\ o_meta o = None /\
+  (i_trusted i = true ->
+   match i_vtarget i with TOCI _ => True | TBlob _ vmt vok => vmt = "" \/ vok = true end ->
+   o_verify o = 6%N).
+Proof. exact model_at_after. Qed.
+Print Assumptions C07_after_expiry.
+
+Theorem C07_timed_model_meets_oracle : forall vnow i, wf i = true -> tspec_ok vnow i (model_at vnow i) = true.
+Proof. exact tspec_model_at. Qed.
+Print Assumptions C07_timed_model_meets_oracle.
+
+Example C07_example_expired_blob :
+  wf tex_blob = true /\ input_expired 1700000005000000000 tex_blob = true /\
+  o_sign (model_at 1700000005000000000 tex_blob) = 0%N /\ o_verify (model_at 1700000005000000000 tex_blob) = 6%N /\
+  o_vhash (model_at 1700000005000000000 tex_blob) = None /\
+  input_expired 1700000000999999999 tex_blob = false /\ o_verify (model_at 1700000000999999999 tex_blob) = 0%N.
+Proof. exact example_expired_blob. Qed.
